@@ -5,6 +5,7 @@ mod itsw;
 mod oracle;
 mod probes;
 mod props;
+mod sweep;
 mod sys;
 mod world;
 
@@ -28,6 +29,12 @@ fn main() {
     }
     if args[0] == "--selftest" {
         println!("oracle self-test ok");
+        return;
+    }
+    if args[0] == "--inventory" {
+        for e in sweep::scan_repo() {
+            println!("{}::{} {:?}{}{}", e.contract, e.name, e.types, if e.unlisted { " UNLISTED" } else { "" }, if e.types.iter().all(|t| sweep::probeable(t)) { "" } else { " (not swept: argument type without a generator)" });
+        }
         return;
     }
     if args[0] == "--emit-c10-seeds" {
